@@ -1718,6 +1718,24 @@ func genC16(cw *caseWriter, seed uint64, tier string) {
 		`{"a":{"x":1},"a":2}`, `{"z":{"x":1},"z":2,"a":1}`, `{"a":1,"d":"2021-09-24","z":[]}`, `{"a":"x"} trailing`, `{"a":1} trailing`, `{"z":1,"a":"x"}`} {
 		emitAccept(cw, typed, []byte(h), true)
 	}
+	// every format x raw type as the ONE declared column, fed with every scalar text and the edges of the raw types'
+	// ranges (float32 against float64 magnitudes, integer bounds, base64 that is none under a binary column whose raw
+	// type is already a string): the line is accepted exactly when the column converts
+	edge := []string{`3.5e38`, `"3.5e38"`, `-1e39`, `3.4028235e38`, `3.4028236e38`, `3.4028235677973366e38`, `1e39`, `"1e-46"`, `1e-46`, `16777217`, `"%%% not base64 %%%"`, `"QUJD="`, `"a"`, `"QUJD"`,
+		`127`, `128`, `-128`, `-129`, `32768`, `4294967295`, `4294967296`, `18446744073709551615`, `-9223372036854775809`}
+	for _, f := range fmtNames {
+		for _, ty := range append([]string{"none"}, tyNames...) {
+			one := []colDesc{{name: "c", format: f, ty: ty}}
+			for _, txt := range edge {
+				emitAccept(cw, one, []byte(`{"c":`+txt+`}`), true)
+			}
+			if tier == "thorough" || r.chance(1, 6) {
+				for _, txt := range scalarTexts {
+					emitAccept(cw, one, []byte(`{"c":`+txt+`}`), true)
+				}
+			}
+		}
+	}
 	n := 4000
 	if tier == "thorough" {
 		n = 150000
